@@ -159,6 +159,36 @@ func ruleRETRY(c *Checker) {
 		})
 		c.decide(bad == "", "RETRY", key, fn.Pos(), "every return outside the quit/ctx cases is preceded by a store of a freshly obtained stream",
 			pr[0]+" can return at "+bad+" without having replaced "+pr[1]+": the caller retries on the dead stream forever")
+		// ... and every attempt to open the stream (re-)creates the mailbox first: the relay may have
+		// lost it (restart, expiry); a remembered "already created" must not skip the call
+		var opens []ssa.Instruction
+		allInstrs(fn, func(in ssa.Instruction) {
+			if ci, ok := in.(ssa.CallInstruction); ok && ci.Common().IsInvoke() && (ci.Common().Method.Name() == "RecvStream" || ci.Common().Method.Name() == "SendStream") {
+				opens = append(opens, in)
+			}
+		})
+		isInit := func(in ssa.Instruction) bool {
+			ci, ok := in.(ssa.CallInstruction)
+			if !ok {
+				return false
+			}
+			sc := ci.Common().StaticCallee()
+			return sc != nil && sc.Name() == "initAccountCipherBox"
+		}
+		badOpen := ""
+		for _, op := range opens {
+			if pathFromEntry(fn, op, isInit) {
+				badOpen = w.pos(instrPos(op))
+			}
+			// within the loop too: from one attempt to the next
+			for _, op2 := range opens {
+				if pathExists(op2, op, isInit) {
+					badOpen = w.pos(instrPos(op))
+				}
+			}
+		}
+		c.decide(badOpen == "" && len(opens) > 0, "RETRY", fmt.Sprintf("ServerConn.%s|the mailbox is (re-)created before every attempt to open its stream", pr[0]), fn.Pos(), "initAccountCipherBox precedes every RecvStream/SendStream",
+			pr[0]+" can open the stream at "+badOpen+" without having asked the relay to create the mailbox in this attempt: after the relay lost its mailboxes the stream can never be opened again")
 	}
 	// ---- (B') client side re-creation: left only after a successful Connect* or on quit ----
 	for _, pr := range [][2]string{{"createSendMailBox", "ConnectSend"}, {"createReceiveMailBox", "ConnectReceive"}} {
@@ -283,7 +313,7 @@ func ruleRETRY(c *Checker) {
 		c.decide(bad == "" && nLegs > 0, "RETRY", key, instrPos(op), "every path from the error leg back to the operation passes "+x.recreate,
 			"after a failed "+x.op+" the loop can try again without re-creating the stream (leg at "+bad+"): the same dead stream is used forever and neither side completes or fails")
 	}
-	c.floor("RETRY", 12)
+	c.floor("RETRY", 14)
 }
 
 // ruleDUPLEX: the Noise record layer is used full duplex: NoiseGrpcConn.Read and Write only
